@@ -27,10 +27,11 @@ SPEC = {
                   "all frame lists, all byte strings and all Inc histories (no size bound): same pcs -> same counter, "
                   "different pcs -> different counter and (untruncated, symboliser injective) different name; rendering "
                   "injective on frame lists; length <= 4096 always and exactly 4096 with the marker when truncated; "
-                  "decode(encode) = uncompressed rendering for frames with a non-empty package path (and line-wise for the "
-                  "surviving complete lines of a truncated name); decode identity on names without newline; line count "
-                  "preserved; is_stack iff newline. decode_encode is REFUTED for an empty package path (known finding "
-                  "ditto-empty-path, theorem C15_decode_encode_refuted). 'different stacks -> different names' holds "
+                  "decode(encode) = uncompressed rendering for all frames whose function name has no newline and whose "
+                  "package path is not a lone ditto mark (empty paths included since /repo fix a2e6094), for every counter "
+                  "name none of whose lines looks like a ditto; each remaining hypothesis proved necessary by a "
+                  "counterexample theorem; line-wise for the surviving complete lines of a truncated name; decode identity "
+                  "on names without newline; line count preserved; is_stack iff newline. 'different stacks -> different names' holds "
                   "only under the premise that the symboliser is injective, which is REFUTED on the real runtime for "
                   "instantiations of one generic function (known finding symboliser-not-injective, theorem "
                   "C15_different_stack_same_name_refuted). The model is tied to the code by differential "
